@@ -137,7 +137,8 @@ pub fn parse_byte_list(input: &str) -> Result<Vec<u8>, DataError> {
             if c == '\\' {
                 check_escape = true
             } else {
-                bytes.push(c as u8);
+                // a character stands for the bytes of its UTF-8 encoding
+                bytes.extend_from_slice(c.encode_utf8(&mut [0u8; 4]).as_bytes());
             }
         }
 
